@@ -22,7 +22,7 @@ def load(root="/repo", modules=None):
         contracts.extend(mod.CONTRACTS)
         for hook in getattr(mod, "SETUP", []):
             hook(interp)
-    interp.contracts = {c.qualname: c for c in contracts if c.body is None or getattr(c, "modular", False)}
+    interp.contracts = {c.qualname: c for c in contracts if c.body is None and getattr(c, "modular", True)}
     return repo, interp, contracts
 
 
